@@ -391,6 +391,12 @@ func (c *Conn) prepareHandshakeStart(ctx context.Context) (handshakeStart, error
 	if c.handshakeConfig.MaxVersion == protocol.Version1_2 {
 		return c.prepareHandshakeStart12(), nil
 	}
+	// A serialised state is always a DTLS 1.2 state: a connection resumed with
+	// a version range that also allows DTLS 1.3 continues that session, it
+	// does not negotiate a new one.
+	if c.handshakeConfig.ResumeState != nil && c.handshakeConfig.MinVersion == protocol.Version1_2 {
+		return c.prepareHandshakeStart12(), nil
+	}
 	if c.handshakeConfig.MinVersion == protocol.Version1_3 {
 		return c.prepareHandshakeStart13(), nil
 	}
